@@ -14,6 +14,9 @@ CHECKS = {
  "C09": ("model_checking", "The implementation's transition table is extracted on every run from the typed syntax tree of ItsPayloadFsmContinuous::advance (state variants, identifier patterns under first-match semantics, guard bits, result word, successor state read from the typestate of the transition call) and explored exhaustively in product with the documented diagram (parsed from the .puml) over the full alphabet 256 identifiers x no_data x packet_done from the initial state: classification and successor must agree in every reachable product state, illegal identifiers must yield an error result in choice states. Also: sibling identifier sets (4 FSM arms, from_id) equal the documented set; the consumer table in CdpRunningValidator::check hands each result to the documented parser/error code. traces_validated_against_impl is 0 because the model IS the extracted implementation table (no hand-written model to validate).",
          "Trusted: rustc nightly front end, /verif/driver, the extractor in fpv/rules/c09.py, oracles/fsm.json (refinement map only; the transition relation comes from the .puml). Known deviations F8a/F8b are listed in known_findings.json by exact (state, word, flag, successor) key.",
          "table extraction from THIR match arms + exhaustive product exploration against the parsed state diagram", "DESIGN.md §3 C09"),
+ "C03": ("other", "Path rules over the scanner's MIR (all CFG paths, filter and no-filter, skip and load): the offset handed out with a packet is a tracker read with no tracker-advancing call between it and the completion of the call that produced the returned RDH; the tracker is advanced exactly once per packet by that RDH's offset_to_next and the payload read uses its payload_size; the reader is moved only by the value the tracker was advanced with and input bytes are consumed only by the loaders; the offset range check dominates every use and every Ok result; the filter predicate and the 23-leaf header decode table equal the protocol layout (evaluated symbolically over the 512 wire bits); batch builders push the tuple unchanged with a strict `len < CAP` stop; both reader back-ends advance by exactly the argument. Decides the bookkeeping structure, not OS I/O or channel behaviour.",
+         "Trusted: rustc nightly front end, /verif/driver, fpv (CFG dominance, provenance, call graph), oracles/rdh_layout.json.",
+         "MIR dominance / must-pass-through / provenance rules + symbolic decode-table equality", "DESIGN.md §3 C03"),
 }
 
 NOT_APPLICABLE = {
